@@ -10,6 +10,9 @@ checks = {
  "C01": dict(cat="other", tech="bounded symbolic execution of go/ssa + SMT (z3), AES as uninterpreted function",
     text="Every assertion of the per-gate inductive garbling step is an SMT obligation over all labels, R, AES keys and input bits (AES uninterpreted); gate type and wiring over 2-4 wires case-split by the solver. Bounded verification, not a proof: whole-circuit composition rests on the re-established invariant.",
     ref="DESIGN.md C01", engine="gosymx"),
+ "C02": dict(cat="other", tech="bounded symbolic co-execution of the real Garbler and Evaluator (go/ssa) over the real p2p.Conn + SMT (z3), AES uninterpreted, ideal OT",
+    text="Both parties' real code runs as coroutines over the real connection layer for a stated family of small circuits (all gate types, multi-output, 1-2 bit inputs/outputs) with symbolic key/labels and solver-enumerated inputs and permute bits; both must terminate without error and return Compute(x,y) split per output. Decided relative to C06 (ideal OT) and C11 (transport).",
+    ref="DESIGN.md C02", engine="gosymx"),
  "C03": dict(cat="translation_validation", tech="SMT miter (z3): real compiler output vs reference term generated from the same AST as the source, all inputs; plus the shipped @Test oracle",
     text="For each generated MPCL program (documented subset: wrapping intN/uintN arithmetic, comparisons, boolean logic, constant shifts, casts, if/else with early return, unrolled loops, arrays, structs, multi-result calls, nested branch merges) the real compiler's circuit is proved equal to the reference semantics for ALL inputs by z3; the program quantifier is a seeded, stated family. Every shipped @Test vector (except the 5 sha512 programs whose circuit files are empty in this sandbox) is checked with the repository's own oracle.",
     ref="DESIGN.md C03", engine="circtv", script="python3-vt",
@@ -31,9 +34,15 @@ checks = {
  "C14": dict(cat="other", tech="bounded symbolic execution of go/ssa + SMT (z3): symbolic gates and symbolic malformed byte tails of symbolic length",
     text="MPCLC format only. Round trip Marshal/ParseMPCLC/Marshal on 3 signature shapes x 1..3 symbolic gates (byte-identical re-serialisation), and ParseMPCLC on a valid header followed by up to 14 (thorough 27) fully symbolic bytes of symbolic length with symbolic NumGates/NumWires: never panics, and an accepted circuit has inputs defined before use and all wires assigned. One defect found this way was repaired (fix: f84e94e).",
     ref="DESIGN.md C14", engine="gosymx"),
+ "C04": dict(cat="other", tech="symbolic transcript of the real garbler (go/ssa) + validity check of every 16-byte window pair at every byte offset (concrete interpretations / SMT)",
+    text="Whole-circuit mode only: the real Garbler's complete garbler->evaluator byte transcript (plus the OT-revealed labels) is recorded symbolically (all randomness symbolic, AES uninterpreted) and every window pair / single window is decided: 'differs by R for all randomness' = leak. Includes a 520-input-bit session (beyond the label batch size). Streaming mode and the sha2pc round protocol are outside this check.",
+    ref="DESIGN.md C04", engine="gosymx"),
  "C06": dict(cat="other", tech="bounded symbolic execution of go/ssa + rewriting + SMT (z3): symbolic Delta, keys, PRG/AES as uninterpreted functions, all choice vectors",
     text="The real IKNP extension (label and packed-bit form) and the COT layer are executed symbolically at batch sizes 1..513 with every choice bit, Delta, all base keys and all PRG/AES outputs symbolic (ideal base OT); the correlation received_i = sent_i xor choice_i*Delta and 'receiver holds exactly the chosen label' are obligations for all choice vectors. One defect found this way (ReceiveBits for n not a multiple of 64) was repaired (fix: 16cbb1c). RSA, Chou-Orlandi and ROT are outside the claim.",
     ref="DESIGN.md C06", engine="gosymx"),
+ "C16": dict(cat="other", tech="bounded symbolic execution of the real Garbler/Evaluator session behind a transport that xors symbolic masks into the evaluator->garbler bytes + SMT (z3)",
+    text="Every byte of the evaluator->garbler direction (OT wire range, returned output labels) is corrupted by an arbitrary symbolic mask; the garbler must error, or return the correct outputs, or the mask equals the secret R. Whole-circuit mode, small circuits plus 8- and 66-bit outputs. The garbler->evaluator direction is outside the claim (needs AES unpredictability).",
+    ref="DESIGN.md C16", engine="gosymx"),
  "C07": dict(cat="translation_validation", tech="SMT miter (z3) of the real builders' gate lists against bit-vector reference semantics, all operand values",
     text="Each real builder invocation (operator x operand widths x result width x target x algorithm) is compiled by the real circuits.Compiler and its output is proved equal to the exact function mod 2^wz for ALL operand values by z3 (per-output-bit incremental miter); the width/configuration quantifier is an enumerated, stated family. Counterexamples are replayed through the real Circuit.Compute.",
     ref="DESIGN.md C07", engine="circtv", script="python3-vt",
